@@ -14,6 +14,7 @@ def short(s, n):
 rows = []
 names = sorted(os.listdir(os.path.join(V, "seeded")))
 caught = 0
+outside = []
 for name in names:
     mp = os.path.join(V, "seeded", name, "meta.json")
     if not os.path.exists(mp):
@@ -22,6 +23,8 @@ for name in names:
     by = m.get("caught_by") or []
     if by:
         caught += 1
+    elif m.get("note_by_me"):
+        outside.append(name)
     cells = []
     for p in by:
         sigs = m["checks"][p].get("violations") or []
@@ -30,7 +33,7 @@ for name in names:
         how = "history replay" if "history replay" in sig else "case replay"
         cells.append("%s — `%s` (%s)" % (p, mm.group(1) if mm else "?", how))
     rows.append("| %s | %s | %s | %s | %s |" % (name, m.get("property"), short(m.get("summary"), 230), short(m.get("needs_to_manifest"), 170),
-                                                  "; ".join(cells) or "**not caught**"))
+                                                  "; ".join(cells) or ("**not caught** - " + short(m.get("note_by_me", ""), 260))))
 d = open(os.path.join(V, "DESIGN.md")).read().split("\n")
 h = next(i for i, ln in enumerate(d) if ln.startswith("| id | prop | change"))
 e = h + 2
@@ -40,4 +43,4 @@ d[h + 2:e] = rows
 txt = "\n".join(d)
 txt = re.sub(r"\*\*\d+ of \d+ sub-agent changes are caught", "**%d of %d sub-agent changes are caught" % (caught, len(rows)), txt)
 open(os.path.join(V, "DESIGN.md"), "w").write(txt)
-print(caught, "of", len(rows))
+print(caught, "of", len(rows), "not caught:", outside)
